@@ -652,9 +652,19 @@ class TaskPool:
                     TASK_STATUS_FAILED,
                     TASK_STATUS_SUCCEEDED
             ):
-                for message in json.loads(outputs_str):
-                    itask.state.outputs.set_message_complete(message)
-                    self.data_store_mgr.delta_task_output(itask, message)
+                outputs = json.loads(outputs_str)
+                if isinstance(outputs, dict):
+                    # {trigger: message} - match triggers, not messages
+                    # (DB may record forced completion rather than message).
+                    for trigger in outputs:
+                        itask.state.outputs.set_trigger_complete(trigger)
+                else:
+                    # BACK COMPAT: [message] (Cylc >8.0.0,<8.3.0)
+                    for message in outputs:
+                        itask.state.outputs.set_message_complete(message)
+                for _, message, is_completed in itask.state.outputs:
+                    if is_completed:
+                        self.data_store_mgr.delta_task_output(itask, message)
 
             if platform_name and status != TASK_STATUS_WAITING:
                 itask.summary['platforms_used'][
